@@ -125,6 +125,9 @@ type Task struct {
 	status     Status
 	state      sm.State
 	safeToStop bool
+	// gone is set once Mesos has reported the end of this task (terminal status, or failure of its
+	// executor or agent). A task that is neither ACTIVE nor gone has been launched and is still staging.
+	gone bool
 
 	properties gera.Map[string, string]
 
